@@ -4,7 +4,7 @@
 (* (code -> spec).  The file named by the environment variable TRACE_FILE  *)
 (* holds a JSON list of traces; each trace is a list of events:            *)
 (*   call   entry, opts (entry-point specific), nwin                       *)
-(*   enter  oid, total, emits, err                                         *)
+(*   enter  oid, total, n (notification step, percent), emits, err         *)
 (*   inc    oid, step, force, i, emits, err                                *)
 (*   msg    oid, seti, newtotal, force, i, total, emits, err               *)
 (*   set    oid, arg, i, emits, err                                        *)
@@ -30,8 +30,8 @@ Tr == Traces[tid]
 Ev == Tr[l]
 IsEvent(name) == l <= Len(Tr) /\ Ev.ev = name /\ l' = l + 1 /\ tid' = tid
 
-Dead == [i |-> 0, total |-> 0, live |-> FALSE]
-Obj(o) == [i |-> o.i, total |-> o.total]
+Dead == [i |-> 0, total |-> 0, n |-> 1, live |-> FALSE]
+Obj(o) == [i |-> o.i, total |-> o.total, n |-> o.n]
 InUnit(emits) == \A k \in 1..Len(emits) : emits[k] \in 0..1000
 
 AllowedOutcomes == {"returned", "refused-upfront", "refused-late", "library-error"}
@@ -65,10 +65,10 @@ Call ==
 Enter ==
     /\ IsEvent("enter")
     /\ Ev.oid \in 1..MaxObj /\ ~objs[Ev.oid].live
-    /\ \E u \in Update(recent, 0, Ev.total, FALSE) :
+    /\ \E u \in Update(recent, 0, Ev.total, FALSE, Ev.n) :
         /\ u.emits = Ev.emits /\ u.err = Ev.err /\ InUnit(Ev.emits)
         /\ recent' = u.recent
-    /\ objs' = [objs EXCEPT ![Ev.oid] = [i |-> 0, total |-> Ev.total, live |-> TRUE]]
+    /\ objs' = [objs EXCEPT ![Ev.oid] = [i |-> 0, total |-> Ev.total, n |-> Ev.n, live |-> TRUE]]
     /\ scriptOK' = (scriptOK /\ (Ev.oid = 1 => ScriptTotalOK(Ev.total)))
     /\ UNCHANGED incs
 
